@@ -617,8 +617,29 @@ class Model:
             vals = [self.const_eval(module, e, cls, _depth + 1) for e in expr.elts]
             return tuple(vals) if isinstance(expr, ast.Tuple) else vals
         if isinstance(expr, ast.Dict):
-            return {self.const_eval(module, k, cls, _depth + 1): self.const_eval(module, v, cls, _depth + 1)
-                    for k, v in zip(expr.keys, expr.values)}
+            def _val(v):
+                try:
+                    return self.const_eval(module, v, cls, _depth + 1)
+                except ValueError:
+                    return Symbol("expr", ast.unparse(v)[:60])      # a table of callables: the keys are what is constant
+            if any(k is None for k in expr.keys):
+                raise ValueError("dict display with ** unpacking")
+            return {self.const_eval(module, k, cls, _depth + 1): _val(v) for k, v in zip(expr.keys, expr.values)}
+        if isinstance(expr, ast.Call) and isinstance(expr.func, ast.Name) and expr.func.id in ("tuple", "list", "sorted", "set", "frozenset") \
+                and len(expr.args) == 1 and not expr.keywords:
+            # tuple(TABLE): the keys of a constant dict / the elements of a constant sequence
+            inner = self.const_eval(module, expr.args[0], cls, _depth + 1)
+            if isinstance(inner, dict):
+                inner = list(inner.keys())
+            if isinstance(inner, (tuple, list, set, frozenset)):
+                vals = list(inner)
+                if expr.func.id == "sorted":
+                    try:
+                        vals = sorted(vals)
+                    except TypeError:
+                        raise ValueError("unsortable constant")
+                return {"tuple": tuple, "list": list, "sorted": list, "set": frozenset, "frozenset": frozenset}[expr.func.id](vals)
+            raise ValueError("not a constant collection")
         if isinstance(expr, ast.UnaryOp) and isinstance(expr.op, ast.USub):
             return -self.const_eval(module, expr.operand, cls, _depth + 1)
         if isinstance(expr, ast.BinOp) and isinstance(expr.op, (ast.Add, ast.Mult, ast.Sub)):
